@@ -31,6 +31,9 @@ type Handler struct {
 	// Mode: how a failing handler fails: "return" (return N), "exit" (exit N), "midway" (a failing command
 	// followed by more commands: strict mode must abort the handler there), "last" (failing last command).
 	Mode string `json:"mode,omitempty"`
+	// ReadsStdin: the (successful) handler consumes its standard input (cat, read, kubectl exec -i ...): the hook's
+	// stdin is /dev/null as under the operator, this must not disturb the dispatch of the following contexts
+	ReadsStdin bool `json:"reads_stdin,omitempty"`
 }
 
 type Case struct {
@@ -123,7 +126,7 @@ func gen(t *rapid.T) Case {
 			st = rapid.SampledFrom([]int{1, 2, 42}).Draw(t, "status")
 			mode = rapid.SampledFrom([]string{"return", "return", "exit", "midway", "midway", "last"}).Draw(t, "mode")
 		}
-		c.Handlers = append(c.Handlers, Handler{Name: name, Status: st, Mode: mode})
+		c.Handlers = append(c.Handlers, Handler{Name: name, Status: st, Mode: mode, ReadsStdin: st == 0 && rapid.IntRange(0, 3).Draw(t, "stdin") == 0})
 	}
 	for _, x := range c.Contexts {
 		for _, cand := range candidates(x) {
@@ -206,6 +209,8 @@ func runCase(c Case) (ev.Info, error) {
 		logLine := fmt.Sprintf("echo \"%s|${BINDING_CONTEXT_CURRENT_INDEX}|$(context::jq -r .binding)\" >> %s", h.Name, logPath)
 		after := fmt.Sprintf("echo \"%s|AFTER-FAILED-COMMAND\" >> %s", h.Name, logPath)
 		switch {
+		case h.Status == 0 && h.ReadsStdin:
+			fmt.Fprintf(&sb, "function %s() { %s; cat >/dev/null; return 0; }\n", h.Name, logLine)
 		case h.Status == 0:
 			fmt.Fprintf(&sb, "function %s() { %s; return 0; }\n", h.Name, logLine)
 		case h.Mode == "exit":
@@ -319,7 +324,7 @@ func tail(s string) string {
 	return s
 }
 
-const rule = "generated bash hooks that source the repository's shell_lib.sh (strict mode) and frameworks/shell, defining a generated subset of the documented handler names for the contexts in play (plus optionally __main__, always __config__), each handler logging name/index/current binding and returning a scripted status; binding-context files with 0-5 contexts of every type (onStartup, Schedule, Synchronization, Event x3, Group, Validating, Mutating, Conversion with short/full versions), binding names from a pool incl. dots/dashes and, 1 in 12, names with spaces from the documentation; run by real bash+jq; oracle: Go reference dispatcher (first defined candidate most-to-least specific, else __main__; stop non-zero at first failing/undefined). Non-trivial: a context with >= 2 defined candidates, or a failing/undefined context that is not the last."
+const rule = "generated bash hooks that source the repository's shell_lib.sh (strict mode) and frameworks/shell, defining a generated subset of the documented handler names for the contexts in play (plus optionally __main__, always __config__), each handler logging name/index/current binding and returning a scripted status (a quarter of the successful handlers also read their standard input, which is /dev/null as under the operator); binding-context files with 0-5 contexts of every type (onStartup, Schedule, Synchronization, Event x3, Group, Validating, Mutating, Conversion with short/full versions), binding names from a pool incl. dots/dashes and, 1 in 12, names with spaces from the documentation; run by real bash+jq; oracle: Go reference dispatcher (first defined candidate most-to-least specific, else __main__; stop non-zero at first failing/undefined). Non-trivial: a context with >= 2 defined candidates, or a failing/undefined context that is not the last."
 
 func TestDispatch(t *testing.T) {
 	ev.Main(t, ev.Spec[Case]{Property: "C19", Part: "dispatch", Rule: rule, Gen: gen, Run: runCase})
